@@ -158,7 +158,7 @@ func TestC05(t *testing.T) {
 		if res.Why != "" {
 			r.Violation("C05:on:"+res.WhySig, res.Why, rep)
 		}
-		if d == (Delivery{}) {
+		if d.plain() {
 			gateB.maybe(newModel(w.Root, true), full, res, "writing enabled", cw.reset)
 		}
 		// nothing outside /w may change, except a target named by a request
@@ -195,7 +195,8 @@ func TestC05(t *testing.T) {
 	for _, tg := range []string{"/w/new.bin", "/w/old.txt"} {
 		for i, p1 := range payloads {
 			for j, p2 := range payloads {
-				for k, tail := range [][]Req{nil, {mkReq(opCreateFile, "/w/new.bin")}, {mkReq(opCreateFile, "/w/emptyd")}, {mkReq(opDeleteFile, tg)}, {mkReq(opCreateFile, "/w/old.txt"), wrReq(p1)}} {
+				for k, tail := range [][]Req{nil, {mkReq(opCreateFile, "/w/new.bin")}, {mkReq(opCreateFile, "/w/emptyd")}, {mkReq(opDeleteFile, tg)}, {mkReq(opCreateFile, "/w/old.txt"), wrReq(p1)},
+					{mkReq(opCreateFile, "/w/nodir/x"), wrReq(p1)}, {mkReq(opCreateFile, "/***DVD***/game/new.bin"), wrReq(p1)}, {mkReq(opCreateFile, "/w/old.txt/below"), wrReq(p1), mkReq(opCreateFile, "/w/emptyd")}} {
 					for _, d := range []Delivery{{}, {Chunk: 7}, {MaxRead: 1}, {Chunk: 1}} {
 						if (d.Chunk > 0 || d.MaxRead > 0) && (len(p1)+len(p2) > 70000 || k > 1) {
 							continue
